@@ -481,14 +481,10 @@ func (r *Resolver) onStructLike(g, vg *Scope, name string, t *parser.Type, v *pa
 			return "", err
 		}
 
-		if NeedRedirect(f) {
-			if f.Type.Category.IsBaseType() {
-				// a trick to create pointers without temporary variables
-				val = fmt.Sprintf("(&struct{x %s}{%s}).x", typ, val)
-			}
-			if !strings.HasPrefix(val, "&") {
-				val = "&" + val
-			}
+		if NeedRedirect(f) && IsBaseType(f.Type) {
+			// a trick to create pointers (also to enum values) without temporary variables;
+			// the value of a struct-like is a pointer already, be it a literal or another constant
+			val = fmt.Sprintf("&(&struct{x %s}{%s}).x", typ, val)
 		}
 		kvs = append(kvs, fmt.Sprintf("%s: %s,", key, val))
 	}
